@@ -24,7 +24,7 @@ def config(tier):
     return {
         "hashseeds": [0, 1] if q else [0, 1, 2, 3, 4, 5, 6, 7],
         "families": ["G1", "G2"],
-        "mc": [],
+        "mc": [{"module": "MCBenchIO", "cfg": "MCBenchIO", "workers": 4, "timeout": 900}],
         "shards": 8 if q else 16,
         "negctl": 12,
     }
@@ -74,7 +74,7 @@ def run_case(case, ctx):
         except Exception as e:
             exc = type(e).__name__
         nt = any(it["k"] == "bb" for it in p["items"]) or len(p["items"]) >= 3
-        return {"kind": "parse", "p": vlog.to_spec(p), "r": proj(c) if c is not None else {}, "exc": exc, "expect_reject": False,
+        return {"kind": "parse", "dialect": "bench", "p": vlog.to_spec(p), "r": proj(c) if c is not None else {}, "exc": exc, "expect_reject": False,
                 "text": text, "nontrivial": nt}
     c = build(case["c"], case.get("ord"))
     exc, c2, text = "", None, ""
